@@ -5320,8 +5320,9 @@ class DfaCompileCtx:
     def _verify_redirect_loop(self):
         """
         An out-of-space redirect re-dispatches the same character at the handler without consuming it. If the handler
-        unconditionally falls back to the very append that raised it, and nothing on the way touches the output, the
-        parser would spin forever once the output is full.
+        can fall back to the very append that raised it, and nothing on the way touches the output, the
+        parser would spin forever once the output is full. Like the fallthrough check, this follows every branch of a
+        condition point: the way back need only exist for some values of the variables.
         """
 
         for state in self.dfa.states:
@@ -5330,20 +5331,27 @@ class DfaCompileCtx:
                 for append in appends:
                     for symbol in transition.on_values:
                         visited = set()
-                        position = append.end_target
-                        while position is not None and position not in visited and not isinstance(position, DFConditionPoint):
+                        pending = [append.end_target]
+                        while pending:
+                            position = pending.pop()
+                            if position is None or position in visited:
+                                continue
                             visited.add(position)
-                            following = position[symbol]
-                            if following is None:
-                                break
-                            if any(append.into_storage in x.modifies() for action in following.actions for x in action.all_subactions()
-                                   if not isinstance(x, (AppendTo, AppendCharTo))):
-                                break  # something empties / rewrites the output, so the append can succeed next time
-                            if following is transition:
-                                raise IllegalDFAStateError("Infinite loop: the out-of-space handler returns to the append that raised it without consuming input", transition)
-                            if not following.is_fallthrough or any(x.get_target_override_mode() != ActionOverrideMode.NONE for x in following.actions):
-                                break
-                            position = following.target
+                            if isinstance(position, DFConditionPoint):
+                                candidates = list(position.transitions)
+                            else:
+                                candidates = [position[symbol]]
+                            for following in candidates:
+                                if following is None:
+                                    continue
+                                if any(append.into_storage in x.modifies() for action in following.actions for x in action.all_subactions()
+                                       if not isinstance(x, (AppendTo, AppendCharTo))):
+                                    continue  # something empties / rewrites the output, so the append can succeed next time
+                                if following is transition:
+                                    raise IllegalDFAStateError("Infinite loop: the out-of-space handler returns to the append that raised it without consuming input", transition)
+                                if not following.is_fallthrough or any(x.get_target_override_mode() in (ActionOverrideMode.ALWAYS_GOTO_OTHER, ActionOverrideMode.ALWAYS_GOTO_UNDEFINED) for x in following.actions):
+                                    continue
+                                pending.append(following.target)  # (a conditional break / finish may just as well not be taken)
 
     def compile(self):
         """
